@@ -113,6 +113,7 @@ let exn_name = function
   | SMILESParserError -> "SMILESParserError" | ValueError -> "ValueError"
   | KeyError -> "KeyError" | IndexError -> "IndexError" | TypeError -> "TypeError"
   | AssertionError -> "AssertionError" | AttributeError -> "AttributeError"
+  | ZeroDivisionError -> "ZeroDivisionError" | RecursionError -> "RecursionError"
   | OutOfFuel -> "OutOfFuel"
 let p_res f = function
   | Ok v -> add "{\"ok\":"; f v; add "}"
@@ -137,6 +138,19 @@ let handle (req : json) : unit =
     | "wf_parse", [s] -> p_opt (p_list (p_pair p_str p_bool)) (wf_parse (j_str s))
     | "wf_tokens", [l] -> p_list p_str (tokens (j_list (j_pair j_str j_bool) l))
     | "wf_render", [l] -> p_str (render (j_list (j_pair j_str j_bool) l))
+    | "s2e", [s; stoi; pad; et] ->
+        p_res (function
+          | Label l -> add "[\"label\","; p_list p_z l; add "]"
+          | OneHot m -> add "[\"one_hot\","; p_list (p_list p_z) m; add "]"
+          | Both (l, m) -> add "[\"both\","; p_list p_z l; add ","; p_list (p_list p_z) m; add "]")
+          (selfies_to_encoding (j_str s) (j_list (j_pair j_str j_z) stoi) (j_z pad) (j_str et))
+    | "e2s", [kind; e; itos; et] ->
+        let inp = (match kind with JStr "label" -> InLabel (j_list j_z e) | _ -> InOneHot (j_list (j_list j_z) e)) in
+        p_res p_str (encoding_to_selfies inp (j_list (j_pair j_z j_str) itos) (j_str et))
+    | "b2f", [batch; stoi; pad] ->
+        p_res (p_list (p_list p_z)) (batch_selfies_to_flat_hot (j_list j_str batch) (j_list (j_pair j_str j_z) stoi) (j_z pad))
+    | "f2b", [batch; itos] ->
+        p_res (p_list p_str) (batch_flat_hot_to_selfies (j_list (j_list j_z) batch) (j_list (j_pair j_z j_str) itos))
     | "idx_to", [n] -> p_res (p_list p_str) (get_selfies_from_index (j_z n))
     | "modernize", [s] -> p_res p_str (modernize_symbol (j_str s))
     | "atom_sym", [t; s] ->
